@@ -43,6 +43,9 @@ pub struct ProbeLite {
     pub pto_count: u32,
     pub pto: [Duration; 3],
     pub remote: Option<SocketAddr>,
+    pub unacked_data: u64,
+    pub send_window: u64,
+    pub peer_max_udp: u16,
 }
 
 pub fn probe_lite(c: &Connection) -> ProbeLite {
@@ -61,6 +64,9 @@ pub fn probe_lite(c: &Connection) -> ProbeLite {
         pto_count: p.pto_count,
         pto: p.pto,
         remote: p.path_remote,
+        unacked_data: p.streams.unacked_data,
+        send_window: p.streams.send_window,
+        peer_max_udp: 0,
     }
 }
 
@@ -340,6 +346,8 @@ pub struct World {
     /// extra hook: datagrams the check wants injected: (at µs, to, from, bytes)
     pub lateness_total: u64,
     pub max_lateness: u64,
+    /// DATAGRAM frames (id, len) carried by each emitted UDP datagram, for the receive-buffer model
+    pub dgram_frames: BTreeMap<u64, Vec<(Option<u64>, usize)>>,
     pub client_token_store: Option<Arc<dyn quinn_proto::TokenStore>>,
     pub server_token_log: Option<Arc<dyn quinn_proto::TokenLog>>,
 }
@@ -409,6 +417,7 @@ impl World {
             hit_step_limit: false,
             lateness_total: 0,
             max_lateness: 0,
+            dgram_frames: BTreeMap::new(),
             client_token_store: None,
             server_token_log: None,
             spec,
@@ -493,6 +502,7 @@ impl World {
         let load_idx = self.loads.len();
         self.loads.push(load.clone());
         let ledger: SharedLedger = Rc::new(RefCell::new(Ledger::default()));
+        ledger.borrow_mut().dg_model_enabled = self.spec.crypto == CryptoKind::Sim && self.observe;
         self.ledgers.push(ledger.clone());
         let cc_log = Arc::new(Mutex::new(CcLog::default()));
         let cfg = self.client_config(cc_log.clone());
@@ -500,7 +510,9 @@ impl World {
         let now = self.now_instant();
         let (ch, c) = self.eps[ep].ep.connect(now, cfg, server_addr, "localhost")?;
         let key = crate::core::mix(self.spec.seed, 0xc0 + load_idx as u64);
-        let app = App::new(Side::Client, key, load.client.clone(), load.server.clone(), ledger);
+        let mut app = App::new(Side::Client, key, load.client.clone(), load.server.clone(), ledger);
+        app.dgram_cfg = (self.spec.client_tc.dgram_recv.map(|x| x as usize), self.spec.client_tc.dgram_send as usize);
+        app.peer_dgram_recv = self.spec.server_tc.dgram_recv.map(|x| (x as usize).min(65535));
         let k = self.conns.len();
         self.eps[ep].by_handle.insert(ch.0, k);
         self.conns.push(ConnState {
@@ -646,6 +658,14 @@ impl World {
         let dir = if self.eps[from_ep].is_server { 1 } else { 0 };
         let lat = self.spec.latency_us[dir] as u64;
         let size = bytes.len();
+        let dfr: Vec<(Option<u64>, usize)> = pkts
+            .iter()
+            .flat_map(|p| p.frames.iter().flatten())
+            .filter_map(|f| if let OF::Datagram { len, id } = f { Some((*id, *len)) } else { None })
+            .collect();
+        if !dfr.is_empty() {
+            self.dgram_frames.insert(id, dfr);
+        }
         let mut rec = DgRec { id, size, pkts, fate: "deliver" };
         if size > self.link_mtu() {
             self.stats.dgrams_mtu_dropped += 1;
@@ -906,8 +926,22 @@ impl World {
             Some(DatagramEvent::ConnectionEvent(ch, ce)) => match self.eps[ep].by_handle.get(&ch.0).copied() {
                 Some(k) => {
                     self.conns[k].last_rx_us = self.now;
+                    let before = self.conns[k].c.stats().frame_rx.datagram;
                     self.conns[k].c.handle_event(ce);
                     self.conns[k].dirty = true;
+                    if let Some(frames) = self.dgram_frames.get(&f.dgram_id) {
+                        let after = self.conns[k].c.stats().frame_rx.datagram;
+                        if !f.corrupted && after - before == frames.len() as u64 {
+                            let cs = &self.conns[k];
+                            let cap = if cs.side.is_client() { self.spec.client_tc.dgram_recv } else { self.spec.server_tc.dgram_recv };
+                            if let (Some(cap), Some(l)) = (cap, self.ledgers.get(cs.load_idx)) {
+                                let mut l = l.borrow_mut();
+                                for (id, len) in frames {
+                                    l.dg_arrived(cs.side.is_server() as usize, *id, *len, cap as usize);
+                                }
+                            }
+                        }
+                    }
                     Routed::Conn(k)
                 }
                 None => {
@@ -980,7 +1014,9 @@ impl World {
                 let load = self.loads.get(load_idx).cloned().unwrap_or(ConnLoad { client: SideLoad::default(), server: SideLoad::default() });
                 let ledger = self.ledgers.get(load_idx).cloned().unwrap_or_else(|| Rc::new(RefCell::new(Ledger::default())));
                 let key = crate::core::mix(self.spec.seed, 0xc0 + load_idx as u64);
-                let app = App::new(Side::Server, key, load.server.clone(), load.client.clone(), ledger);
+                let mut app = App::new(Side::Server, key, load.server.clone(), load.client.clone(), ledger);
+                app.dgram_cfg = (self.spec.server_tc.dgram_recv.map(|x| x as usize), self.spec.server_tc.dgram_send as usize);
+                app.peer_dgram_recv = self.spec.client_tc.dgram_recv.map(|x| (x as usize).min(65535));
                 let k = self.conns.len();
                 self.eps[ep].by_handle.insert(ch.0, k);
                 self.conns.push(ConnState {
